@@ -23,6 +23,9 @@
    text or a marked piece: the name of a declaration in declaration position, a literal, an
    operator.  The marks do not influence the text; they are what the C12 theorems talk about.
 
+   The last section is the vocabulary of the C12 statements (marks, inventory, wf, clean, scan /
+   balanced) and the report function the harness evaluates per program.
+
    What is NOT modelled: tu.is_sam (it walks the context and deep-copies declarations); the
    serialiser evaluates the real is_sam for every class of the context and hands the model the
    table of SAM class names (`sams`), which the model consults where the implementation calls
